@@ -15,6 +15,7 @@ CHECK = {
     "technique": "property-based testing (rapid) with fault injection on the transfer stream: per-key verdict predicate + end-to-end differential (queued element == accepted keys/contents)",
     "runs": [
         {"name": "offer", "run": "^TestC09_Offer$", "checks": {"quick": 30, "thorough": 50}, "shards": {"quick": 6, "thorough": 16}, "rounds": {"quick": 2, "thorough": 6}},
+        {"name": "dial", "run": "^TestC09_OfferSideDial$", "checks": {"quick": 20, "thorough": 40}, "shards": {"quick": 4, "thorough": 16}, "rounds": {"quick": 1, "thorough": 3}},
         {"name": "concurrent", "run": "^TestC09_ConcurrentOffers$", "checks": {"quick": 12, "thorough": 25}, "shards": {"quick": 6, "thorough": 16}, "rounds": {"quick": 2, "thorough": 5}},
     ],
     "rule": "rapid draws (version sets, key specs {seed, stored|unstored|inflight, content length 0..20000}, radius class max/zero/split-at-kth-key, slot limit, slots in use, "
@@ -25,5 +26,5 @@ CHECK = {
         "pairs without a common protocol version are skipped here (C19)",
         "with a full validation queue a correctly transferred element may be dropped (the statement only constrains what is handed over)",
     ],
-    "required_classes": {"quick": ["mixed-verdicts", "rate-limited-reply", "transfer-completed", "lost-transfer", "overlapping-offer", "version:0", "version:1", "stream-discarded:more", "stream-discarded:truncated", "offer-after-overlapping-offer-ended", "concurrent-offers:4", "concurrent-offers-of-different-sizes", "accepted-all-64-keys:stream=more"]},
+    "required_classes": {"quick": ["mixed-verdicts", "rate-limited-reply", "transfer-completed", "lost-transfer", "overlapping-offer", "version:0", "version:1", "stream-discarded:more", "stream-discarded:truncated", "offer-after-overlapping-offer-ended", "concurrent-offers:4", "concurrent-offers-of-different-sizes", "accepted-all-64-keys:stream=more", "dial:stream-opened:cid=0x0000", "dial:nothing-accepted-nothing-sent"]},
 }
